@@ -187,7 +187,7 @@ func c18Corpus(rg *rand.Rand, quick bool) []c18Stream {
 	// seeded havoc over valid sequences
 	nh := 600
 	if !quick {
-		nh = 60000
+		nh = 20000
 	}
 	bases := [][]byte{full, cat(P["connect"], P["subscribe3"], P["publish2"], P["pubrel"]), cat(P["connect-cred"], P["publish1"], P["unsubscribe"]), P["connect-will"]}
 	for i := 0; i < nh; i++ {
@@ -215,7 +215,7 @@ func c18Corpus(rg *rand.Rand, quick bool) []c18Stream {
 }
 
 func runC18(c *fw.Ctx) {
-	c.Rule = "corpus of client byte streams, each sent on a fresh connection to a broker node that also serves two witness clients: valid packet sequences (4 CONNECT variants x 19 following packets, packets without CONNECT, a full session), truncation of three sequences at EVERY byte offset, type-nibble and flag-nibble sweeps and 11 remaining-length corruptions (too small/large, multi-byte, 5- and 6-byte, maximal) of 9 packet kinds after CONNECT, CONNECT remaining-length/flag/byte sweeps, QoS 3, empty topic lists, identifier 0, empty bodies, length prefixes beyond the packet, and seeded byte-level havoc (quick 600, thorough 60000). Every stream's hex is logged before it is sent. Oracle: the broker process survives (a crash kills the child and is reported by the parent with the last streams), both witnesses are never disconnected, answer PINGREQ after every batch of streams and complete a tagged QoS 1 publish/receive round trip every 40 streams and at the end. distinct = stream bytes; non-trivial = stream differs from a valid sequence"
+	c.Rule = "corpus of client byte streams, each sent on a fresh connection to a broker node that also serves two witness clients: valid packet sequences (4 CONNECT variants x 19 following packets, packets without CONNECT, a full session), truncation of three sequences at EVERY byte offset, type-nibble and flag-nibble sweeps and 11 remaining-length corruptions (too small/large, multi-byte, 5- and 6-byte, maximal) of 9 packet kinds after CONNECT, CONNECT remaining-length/flag/byte sweeps, QoS 3, empty topic lists, identifier 0, empty bodies, length prefixes beyond the packet, and seeded byte-level havoc (quick 600, thorough 20000). Every stream's hex is logged before it is sent. 24 connections that stay silent (or send half a CONNECT) are held open throughout and a new client connects at the end. Oracle: the broker process survives (a crash kills the child and is reported by the parent with the last streams), both witnesses are never disconnected, answer PINGREQ after every batch of streams and complete a tagged QoS 1 publish/receive round trip every 40 streams and at the end. distinct = stream bytes; non-trivial = stream differs from a valid sequence"
 	c.Assume("a client that stops reading is out of scope (the property is about bytes a client sends)")
 	rg := c.SubRng("c18", 0)
 	corpus := c18Corpus(rg, c.Quick())
@@ -295,6 +295,20 @@ func runC18(c *fw.Ctx) {
 	if !roundTrip() {
 		return
 	}
+	// connections that never send anything (or half a CONNECT) and stay open for the whole run
+	lingering := []*kit.Client{}
+	for i := 0; i < 24; i++ {
+		lc := n.Dial(fmt.Sprintf("silent-%d", i))
+		if i%2 == 1 {
+			lc.SendTimeout([]byte{0x10, 0x20, 0x00, 0x04, 'M', 'Q'}, 2*time.Second)
+		}
+		lingering = append(lingering, lc)
+	}
+	defer func() {
+		for _, lc := range lingering {
+			lc.Close()
+		}
+	}()
 	par := 8
 	var sent int64
 	far := time.Now().Add(time.Hour)
@@ -348,6 +362,25 @@ func runC18(c *fw.Ctx) {
 	if !pingWitness() || !roundTrip() {
 		return
 	}
+	// a client that arrives after all this is still admitted and served
+	late, code, err := n.Connect(kit.ConnectOpts{ClientID: "late-witness", KeepAlive: 600, Clean: true})
+	if err != nil || code != 0 {
+		c.Violation("stalled", fmt.Sprintf("after the hostile streams (and with 24 silent connections still open) a new client could not connect: code %d, %v", code, err), nil)
+		return
+	}
+	defer late.Close()
+	if err := late.Sub1("witness/#", 0); err != nil {
+		c.Violation("stalled", "a client admitted after the hostile streams could not subscribe: "+err.Error(), nil)
+		return
+	}
+	if !roundTrip() {
+		return
+	}
+	if _, _, err := late.WaitFor(0, 60*time.Second, func(e kit.Event) bool { return e.Pkt.Type == kit.PUBLISH }); err != nil {
+		c.Violation("stalled", "a client admitted after the hostile streams receives nothing: "+err.Error(), nil)
+		return
+	}
+	c.Observe("late_client_served", 1)
 	c.Observe("streams_sent", int(sent))
 	c.Sample(map[string]interface{}{"stream": corpus[5].name, "hex": hex.EncodeToString(corpus[5].bytes)})
 	c.Sample(map[string]interface{}{"stream": corpus[len(corpus)/2].name, "hex": hex.EncodeToString(corpus[len(corpus)/2].bytes)})
